@@ -19,7 +19,9 @@ RULE = ("One case = one random model (2..7 physical basis sets with nbas >= 2 of
         "norm, expectation (full and partial operators, Op / OpSum arguments), calc_1site_rdm / calc_2site_rdm / "
         "calc_1dof_rdm / calc_2dof_rdm, 1site / 2site / 1dof / 2dof entropies, calc_2dof_mutual_info, calc_bond_entropy / "
         "calc_bond_singular_values. Every state-producing step is compared with the same operation on the dense "
-        "operands (todense(generation order) * coeff) immediately and after a copy has been canonicalised / compressed "
+        "operands (node tensors contracted along the tree by the harness, generation order, times coeff; "
+        "TTNS.todense(order) is cross-checked against that contraction for every new pool state and 12 % of the "
+        "comparisons, todense() with the default order once per case) immediately and after a copy has been canonicalised / compressed "
         "without truncation, with the label invariant and (after canonicalise/compress) the isometry of every non-root "
         "tensor recomputed from the raw arrays; every observable is compared with its dense definition on the object "
         "itself or on a canonicalised / compressed copy. Child-order independence: every pool state is also placed on an "
@@ -30,10 +32,13 @@ RULE = ("One case = one random model (2..7 physical basis sets with nbas >= 2 of
         "Non-trivial: the tree has a node with >= 2 children or >= 2 basis sets and the history contains an operation that "
         "changes tensors; distinct by (tree shape with child order, operation trace).")
 ASSUMPTIONS = [
-    "the vector a TTNS represents is todense(order) * coeff (coeff is the documented scalar prefactor: norm = |coeff| * ttns_norm); "
+    "the vector a TTNS represents is the contraction of its node tensors along the tree bonds (= todense(order), cross-checked) times coeff "
+    "(coeff is the documented scalar prefactor: norm = |coeff| * ttns_norm); "
     "ttns_norm, expectation, reduced density matrices and entropies are tensor-level quantities (coeff excluded), un-normalised like the code",
-    "relative tolerance 1e-10 on the natural scale of each quantity (product of the operand norms; ||psi||^2 for RDMs; ||O||_F ||psi||^2 for "
-    "expectation values, plus 1e-8 absolute when the library returns a float because it drops imaginary parts below 1e-8); entropies 1e-8 absolute",
+    "relative tolerance 1e-10 on the natural scale of each quantity (product of the operand norms; S^2 for RDMs and S^2 ||O||_F for "
+    "expectation values, plus 1e-8 absolute when the library returns a float because it drops imaginary parts below 1e-8, where S is the "
+    "norm of the state or, if larger, the norm scale of the operands it was computed from: a sum that cancels carries rounding errors of its "
+    "operands); entropies 1e-8 absolute, not requested when the state retains less than 1e-3 of its operands' norm",
     "RDM index order as documented: ket indices followed by bra indices, one axis per basis set of the node (one-state sets as size-1 axes); "
     "2-site/2-dof RDMs list the first site/dof first",
     "entropies are requested for states with 0.1 <= ||psi|| <= 10 (others are rescaled by the harness first): calc_vn_entropy asserts that "
@@ -61,7 +66,7 @@ _REQUIRED = (["kind:" + k for k in _KINDS]
 
 
 def plan(tier):
-    base = {"case_time_limit": 240, "required_classes": _REQUIRED}
+    base = {"case_time_limit": 600, "required_classes": _REQUIRED}
     if tier == "quick":
         base.update({"ncases": 208, "min_nontrivial": 120,
                      "required_counters": {"oracle": 4500, "child_order": 1500, "label_checks": 1400, "isometry_checks": 700,
